@@ -338,7 +338,7 @@ def generic_check(cfg, argv):
     bad, errs = ({}, [])
     mismatches = []
     if not harness_broken:
-        bad, errs = run_cases(casedir)
+        bad, errs = run_cases(casedir, timeout=1200 if tier == "quick" else 5400)
         if errs:
             machinery.append("model evaluation failed: " + " | ".join(errs)[:1500])
         nb = sum(len(v) for v in bad.values())
